@@ -1,6 +1,7 @@
 """C12 — mixed_edge_moral_graph: adjacency = collider-connectedness; nodes kept."""
 import itertools
 import graphs as gr
+import c12_ref as ref
 
 PROP = "C12"
 RULE = ("every acyclic ADMG(n) and ancestral graph with undirected edges ANC(n) (all per-pair edge kinds), "
@@ -14,7 +15,13 @@ RULE = ("every acyclic ADMG(n) and ancestral graph with undirected edges ANC(n) 
         "(an edge and a node removed) and the call repeated, and a copy() of the input is observed too; the empty graph; a third of those graphs also as ADMG "
         "instances and ancestral ones as PAG instances (moral graph only); custom edge-type names "
         "('dir','bidir','undir') passed explicitly to mixed_edge_moral_graph, _anterior, m_separated on a third of those and an eighth "
-        "of the random graphs. distinct by (canonical graph, layers present, repeat seed, layer names); non-trivial = the moral graph has an edge that is "
+        "of the random graphs. DEEP stream (3 graphs of 200-280 nodes: district chain p->c0<->...<->c199<-q with "
+        "side branches, long directed + undirected anterior chains, ladder of 70 districts) run with 120 frames of recursion head-room "
+        "(HEAD is iterative there); their expectation is the Python transcription harness/c12_ref.py of the model's definitions, which "
+        "on every other case of every run is itself compared with the extracted proved model ('reference-vs-model'); before every "
+        "REPEAT case the API is first run on an unrelated graph in the same process (cross-call contamination); slices with "
+        "identity-hashed label objects and with graph-level attributes whose keys are 2021 / 'edge_types' / 'graphs'. "
+        "distinct by (canonical graph, layers present, repeat seed, layer names, object kind, label family); non-trivial = the moral graph has an edge that is "
         "not an edge of the input skeleton")
 EXHAUSTIVE = {"quick": "all ADMG(n), ANC(n) n<=3, DAG(4), bidirected-only and undirected-only graphs on 4 nodes; all layer-absent variants", "thorough": "all ADMG(n), ANC(n) n<=4; all layer-absent variants"}
 TRUSTED = ["networkx compose / connected_components / predecessors / node_connected_component taken at face value",
@@ -162,15 +169,24 @@ def gen_cases(tier, rng):
                     yield dict(c, kind="%s%d:admg" % (nm, n), obj="admg", rep=None if j % 2 else c["rep"])
                 if j % 3 == 2 and nm == "anc":
                     yield dict(c, kind="%s%d:pag" % (nm, n), obj="pag", qs=[], rep=None if j % 2 else c["rep"])
+    # DEEP stream: recursion head-room of 120 frames, expectation from the Python transcription of the model
+    for name, g, qs in deep_graphs():
+        yield {"kind": "deep:" + name, "g": g, "qs": qs, "oracle": False, "deep": name, "_reclimit": 120}
+    # identity-hashed label objects; graph-level attributes with awkward keys
+    for j, g in enumerate(gr.enum_admg(3)):
+        if j % 4 == 0:
+            yield {"kind": "admg3:obj", "g": g, "qs": queries(g["V"]), "oracle": True, "_lab": "obj", "rep": 400000 + j}
+        if j % 4 == 1:
+            yield {"kind": "admg3:gattr", "g": g, "qs": queries(g["V"]), "oracle": True, "gattr": True}
     # large districts with several parents (5-7 nodes)
-    for i in range(150 if tier == "quick" else 1500):
+    for i in range(100 if tier == "quick" else 1500):
         n = rng.randint(5, 7)
         g = gr.random_kinds_graph(rng, n, ["none", "<->", "<->", "->", "<-", "->&<->"], p_edge=rng.choice([0.35, 0.5]))
         c = {"kind": "districts", "g": g, "qs": queries(g["V"], rng=rng, limit=12), "oracle": n <= 5}
         if i % 2 == 0:
             c["rep"] = 200000 + i
         yield c
-    for i in range(300 if tier == "quick" else 3000):
+    for i in range(220 if tier == "quick" else 3000):
         n = rng.randint(4, 8)
         r = rng.random()
         if r < 0.35:
@@ -191,12 +207,52 @@ def gen_cases(tier, rng):
 
 
 def encode(case):
+    if case.get("deep"):
+        return [1, gr.enc(gr.G([])), []]      # too long for the round-based Gallina closures: expectation from c12_ref
     return [0 if case.get("oracle") else 1, gr.enc(case["g"]), case.get("qs", [])]
 
 
 def decode(case, v):
+    if case.get("deep"):
+        m = ref.moral_graph(case["g"])
+        return {"nodes": m["nodes"], "edges": m["edges"], "oracle": None, "ref": "only",
+                "crit": [ref.moral_sep(case["g"], X, Y, Z) for X, Y, Z in case.get("qs", [])]}
     return {"nodes": v[0], "edges": v[1], "crit": [r[0] for r in v[2]],
             "oracle": [r[1] for r in v[2]] if case.get("oracle") else None}
+
+
+def ref_agrees(case, model, impl):
+    """the Python transcription of the model's definitions (c12_ref, evaluated in the worker) against the extracted proved model"""
+    return "ref" not in impl or impl["ref"] == [model["nodes"], model["edges"], model["crit"]]
+
+
+def deep_graphs():
+    """long structured graphs (about 200-250 nodes) that make the code walk their whole length"""
+    # 1. the district chain of DEEP item E: p -> c0 <-> c1 <-> ... <-> c_{k-1} <- q, side branches c_j -> r_j
+    k = 200
+    c = list(range(2, 2 + k))
+    D = [[0, c[0]], [1, c[-1]]] + [[c[j], 2 + k + i] for i, j in enumerate((5, 100, 190))]
+    g = gr.G(range(2 + k + 3), D=D, B=[[c[j], c[j + 1]] for j in range(k - 1)])
+    yield "district-chain", g, [[[0], [1], []], [[0], [1], [c[7]]], [[2 + k], [2 + k + 2], [c[50]]]]
+    # 2. a long directed chain into x = 0 and a long undirected chain that ends in a parent of y = 1 (anterior set)
+    k = 120
+    a = list(range(2, 2 + k))
+    u = list(range(2 + k, 2 + 2 * k))
+    D = [[a[0], 0]] + [[a[j + 1], a[j]] for j in range(k - 1)] + [[u[0], 1], [a[-1], u[-1] + 1], [u[-1], u[-1] + 1]]
+    g = gr.G(range(2 + 2 * k + 1), D=D, U=[[u[j], u[j + 1]] for j in range(k - 1)])
+    t = u[-1] + 1
+    yield "anterior-chains", g, [[[0], [1], [t]], [[0], [1], []], [[0], [1], [t, a[60]]], [[0], [1], [t, u[60]]]]
+    # 3. a ladder of small districts with two parents each (many districts, many marriages)
+    k = 70
+    D, B = [], []
+    for j in range(k):
+        p, q, c1, c2 = 4 * j, 4 * j + 1, 4 * j + 2, 4 * j + 3
+        D += [[p, c1], [q, c2]]
+        B += [[c1, c2]]
+        if j:
+            D += [[4 * j - 1, p]]
+    g = gr.G(range(4 * k), D=D, B=B)
+    yield "district-ladder", g, [[[0], [4 * k - 1], []], [[0], [4 * k - 1], [4 * 30 + 3]], [[1], [4 * k - 1], [4 * 30]]]
 
 
 def is_plain_dag(g):
@@ -261,6 +317,11 @@ def run_impl(case):
     qs = case.get("qs", [])
     rep = case.get("rep")
     g0 = gr.perturb(g, random.Random(rep)) if rep is not None else None
+    if rep is not None or case.get("pre"):
+        # CROSS-CALL: first the API on an unrelated graph (nodes the target lacks, two layers only) in the same process
+        A, labA, invA = gr.to_mixed(gr.G([90, 91, 92, 93], D=[[90, 92], [91, 92]], B=[[92, 93]]), None,
+                                    layers=("directed", "bidirected"))
+        _observe(A, labA, invA, {}, {}, [[[90], [91], [92]]])
     if g0 is not None:
         # REPEAT: warm up on a neighbour graph (same counts), edit the SAME object in place, then judge
         M, lab, inv, kw, kwa, lmap = build(g0, case)
@@ -268,10 +329,18 @@ def run_impl(case):
         gr.morph(M, g0, g, lab, lmap)
     else:
         M, lab, inv, kw, kwa, lmap = build(g, case)
+    if case.get("gattr"):
+        # legal networkx graph attributes: a non-string key and keys that look like constructor arguments
+        M.graph[2021] = "user data"
+        M.graph["edge_types"] = "user data"
+        M.graph["graphs"] = "user data"
     before = gr.snapshot(M)
     out, R = _observe(M, lab, inv, kw, kwa, qs)
     if before != gr.snapshot(M):
         out["mutated"] = True
+    if not case.get("deep"):
+        m = ref.moral_graph(g)       # pure Python transcription of the model, compared with the extracted model in compare()
+        out["ref"] = [m["nodes"], m["edges"], [ref.moral_sep(g, X, Y, Z) for X, Y, Z in qs]]
     if is_plain_dag(g):
         Dg, lab2, inv2 = gr.to_digraph(g, case)
         N = nx.moral_graph(Dg)
@@ -299,6 +368,8 @@ def compare(case, impl, model):
         return "argument-mutated"
     if model["oracle"] is not None and model["oracle"] != model["crit"]:
         return "model-vs-oracle"
+    if model.get("ref") != "only" and not ref_agrees(case, model, impl):
+        return "reference-vs-model"
     if impl["nodes"] != model["nodes"] or impl["edges"] != model["edges"]:
         return "result"
     if "nx" in impl and impl["nx"] != [impl["nodes"], impl["edges"]]:
@@ -322,7 +393,7 @@ def nontrivial(case, model):
 
 def key(case):
     return (gr.canon(case["g"]), tuple(case.get("layers", ALL_LAYERS)), case.get("rep"), tuple(case.get("names") or ()),
-            case.get("obj"))
+            case.get("obj"), case.get("_lab"), case.get("gattr"))
 
 
 def classify(case, impl, model):
@@ -330,6 +401,10 @@ def classify(case, impl, model):
         return None
     if model["oracle"] is not None and model["oracle"] != model["crit"]:
         return None
+    if model.get("ref") != "only" and not ref_agrees(case, model, impl):
+        return None
+    if case.get("deep"):
+        return "deep:" + str(case["deep"])
     if case.get("names"):
         return "custom-edge-type-names"
     if case.get("rep") is not None:
